@@ -241,6 +241,19 @@ fn compare_ext(s: &[u8], s2: &[u8], what: &str, st: &mut Stats, case: &dyn Fn() 
     let size = s.len() + s2.len();
     let a = guard(|| ExtensionsMap::from_bytes(s));
     let b = guard(|| ExtensionsMap::from_bytes(s2));
+    // FromStr is a second public text route of the same type: same verdict and value on each side
+    for (text, via_bytes) in [(s, &a), (s2, &b)] {
+        if let (Ok(t), Ok(vb)) = (std::str::from_utf8(text), via_bytes) {
+            match guard(|| t.parse::<ExtensionsMap>()) {
+                Err(p) => st.fail(panic_sig(&p), case(), size, "ExtensionsMap::from_str panicked"),
+                Ok(vs) => {
+                    if vs.is_ok() != vb.is_ok() || (vs.is_ok() && vs.as_ref().ok() != vb.as_ref().ok()) {
+                        st.fail(format!("extensionsmap:from_str-differs-from-from_bytes:{what}"), case(), size, format!("{t:?}: FromStr -> {:?}, from_bytes -> {:?}", vs.as_ref().map(|e| e.to_string()).map_err(|e| format!("{e:?}")), vb.as_ref().map(|e| e.to_string()).map_err(|e| format!("{e:?}"))));
+                    }
+                }
+            }
+        }
+    }
     match (a, b) {
         (Ok(a), Ok(b)) => match (a, b) {
             (Err(_), Err(_)) => {}
